@@ -110,6 +110,17 @@ def judge_triple(ctx, case):
         emitted.append(vn.extended_public_key())
         ctx.judge("public_data", not b, dict(case, sub=sub), ref.fields(), b, cls="sub%d|%s" % (len(sub), cls_base),
                   mech="C14.public_data." + (b[0][0] if b else ""))
+        # the FULL wallet is asked for the private data of the very same node first (its right) - whatever it caches or
+        # registers must stay out of reach of the watch-only wallet living in the same process
+        if case.get("full_first", True):
+            try:
+                secrets_strs = [W.node_extended_private_key(wn), wn.extended_private_key()]
+                ks_w = W.node_extended_keys(wn)
+                secrets_strs.append(ks_w.get("prv"))
+                secrets_strs.append(W.group(nodes=[wn], addr_fnc=W.p2wpkh_address)[0][3])
+                ctx.extra["full_wallet_private_requests"] = ctx.extra.get("full_wallet_private_requests", 0) + 4
+            except Exception as e:  # noqa
+                ctx.judge("public_data", False, dict(case, sub=sub), "full wallet private data", e, cls="full|raised", mech="C14.full_wallet.raised")
         # private requests on this node
         pb = []
         try:
@@ -247,7 +258,7 @@ def gen_case(rnd, j):
         L = rnd.randrange(1, 6)
         subs.append([rnd.choice([0, 1, H - 1, rnd.randrange(0, H)]) for _ in range(L)])
     return {"seed": gen.rbytes(rnd, rnd.choice([16, 32, 64])), "testnet": tn, "export_path": ep,
-            "purpose": [44, 49, 84][(j // 2) % 3], "subpaths": subs}
+            "purpose": [44, 49, 84][(j // 2) % 3], "subpaths": subs, "full_first": rnd.random() < 0.75}
 
 
 def run(ctx):
